@@ -45,6 +45,7 @@ pub fn exec(sc: &Scenario, st: &mut Stats) -> Option<Violation> {
     let mut compared_after_reset = false;
     let mut prev_was_reset = false;
     let mut micro: Vec<(Input, Fault)> = vec![];
+    let mut siblings: Vec<Box<dyn crate::sut::Sut>> = vec![];
     for (i, op) in sc.ops.iter().enumerate() {
         st.op(op);
         match op {
@@ -116,6 +117,16 @@ pub fn exec(sc: &Scenario, st: &mut Stats) -> Option<Violation> {
                 resets += 1;
                 prev_was_reset = true;
                 last_fault = Fault::Clean;
+            }
+            Op::Fork { dst, .. } if *dst != 0 => {
+                // a clone is taken and stays alive next to the node (shared copy-on-write buffers would
+                // still be shared at the reset)
+                siblings.push(on(Side::Subject, || node.fork()));
+                st.bump("live_clone_next_to_the_node_at_reset");
+                prev_was_reset = false;
+            }
+            Op::Drop { .. } => {
+                siblings.pop();
             }
             Op::Fork { .. } => {
                 // the node is replaced by its clone: what is reset later is a clone
@@ -194,7 +205,7 @@ pub fn generate(rng: &mut Rng, tier: Tier) -> Scenario {
             3 => n,
             4 => n + 1,
             5 => 2 * n,
-            6 => rng.range(0, 4 * sp + 40),
+            6 => rng.range(0, (4 * sp + 40).min(sp + 6000)),
             _ => rng.range(0, (4 * sp + 40).min(60)),
         };
         // rarely: a very long uptime before the reset (counters, cursors and running sums far from fresh)
@@ -223,7 +234,11 @@ pub fn generate(rng: &mut Rng, tier: Tier) -> Scenario {
         }
         // sometimes what gets reset is a clone, or a copy that went through serde
         if rng.chance(0.06) {
-            ops.push(Op::Fork { src: 0, dst: 0 });
+            ops.push(Op::Fork { src: 0, dst: 0, into: false });
+        }
+        let sibling = rng.chance(0.08);
+        if sibling {
+            ops.push(Op::Fork { src: 0, dst: 1, into: false });
         }
         if rng.chance(0.06) {
             ops.push(Op::RoundTrip { n: 0, times: 1, json: false });
@@ -236,11 +251,14 @@ pub fn generate(rng: &mut Rng, tier: Tier) -> Scenario {
         if rng.chance(0.1) {
             ops.push(Op::Format { n: 0 });
         }
+        if sibling && rng.chance(0.5) {
+            ops.push(Op::Drop { n: 1 });
+        }
         // phase 3: continuation. Mostly from a different stretch of the world (the tests' habit of
         // re-feeding the same data hides stale windows); sometimes the same world simply goes on
         // (exact repeats of earlier values in flat / few-valued / alternating regimes); sometimes the
         // history itself is fed again (stale state that only shows when old and new values coincide).
-        let clen = rng.range(sp + 2, 3 * sp + 20);
+        let clen = rng.range(sp + 2, (3 * sp + 20).min(sp + 5000));
         let how = rng.below(10);
         let hist: Vec<(Input, Fault)> = ops[cycle_start..].iter().filter_map(|o| if let Op::Feed { x, f, .. } = o { Some((*x, *f)) } else { None }).collect();
         if how >= 8 && !hist.is_empty() {
@@ -275,7 +293,8 @@ pub fn generate(rng: &mut Rng, tier: Tier) -> Scenario {
 // depth D for periods 1..=4, then reset, then three fixed continuations
 
 const NCONT: u64 = 4;
-const ALPHA: [f64; 6] = [-1.0, 0.0, 1.0, 2.0, f64::NAN, f64::INFINITY];
+const ALPHA: [f64; 7] = [-1.0, 0.0, 1.0, 2.0, f64::NAN, f64::INFINITY, f64::NEG_INFINITY];
+const NSYM: u64 = 8; // the alphabet plus Reset
 
 fn sweep_specs() -> Vec<NodeSpec> {
     let mut v = vec![];
@@ -306,7 +325,7 @@ fn sweep_specs() -> Vec<NodeSpec> {
 
 /// number of histories of length 0..=depth over an alphabet of 7 symbols
 fn n_hist(depth: u32) -> u64 {
-    (0..=depth).map(|d| 7u64.pow(d)).sum::<u64>()
+    (0..=depth).map(|d| NSYM.pow(d)).sum::<u64>()
 }
 
 fn sweep_scenario(idx: u64, specs: &[NodeSpec], depth: u32) -> Scenario {
@@ -318,24 +337,26 @@ fn sweep_scenario(idx: u64, specs: &[NodeSpec], depth: u32) -> Scenario {
     // decode history number r: lengths 0..=depth
     let mut len = 0u32;
     let mut base = 0u64;
-    while r >= base + 7u64.pow(len) {
-        base += 7u64.pow(len);
+    while r >= base + NSYM.pow(len) {
+        base += NSYM.pow(len);
         len += 1;
     }
     let mut code = r - base;
     let mut ops = vec![];
     let mut first_val: Option<f64> = None;
     for _ in 0..len {
-        let s = (code % 7) as usize;
-        if s < 6 && first_val.is_none() {
+        let s = (code % NSYM) as usize;
+        if s < 7 && first_val.is_none() {
             first_val = Some(ALPHA[s]);
         }
-        code /= 7;
-        if s == 6 {
+        code /= NSYM;
+        if s == 7 {
             ops.push(Op::Reset { n: 0 });
         } else {
             let f = if ALPHA[s].is_nan() {
                 Fault::Nan
+            } else if ALPHA[s] == f64::NEG_INFINITY {
+                Fault::NegInf
             } else if ALPHA[s].is_infinite() {
                 Fault::PosInf
             } else {
@@ -376,7 +397,7 @@ pub fn run(tier: Tier) -> i32 {
     let mut total = Stats::default();
     let (depth, seeded_runs) = match tier {
         Tier::Quick => (5u32, 3_000_000u64),
-        Tier::Thorough => (6u32, 60_000_000u64),
+        Tier::Thorough => (6u32, 50_000_000u64),
     };
     let wall_cap = match tier {
         Tier::Quick => Duration::from_secs(120),
@@ -403,7 +424,7 @@ pub fn run(tier: Tier) -> i32 {
         &total,
         report::EvidenceMeta {
             level: "exploration",
-            rule: "one evaluation = one scenario (history, reset(s), continuation) executed against the real crate. Seeded scenarios: random indicator/parameters/input mode, up to 4 cycles of fault-laden history + reset (storms included) + continuation drawn from a different stretch of the simulated market (or the same market going on, or the history itself fed again), compared tick by tick with a twin constructed at the reset. Sweep scenarios: every history over {-1,0,1,2,NaN,+inf,Reset} up to the stated depth for periods 1..=4, then reset, then 4 fixed continuations (ascending, descending with ties, NaN-first bars, the history's own alphabet again). distinct_nontrivial counts distinct situations (indicator, period bucket, window phase of the compared tick since reset, input mode, fault most recently seen before the reset, history length class, fault of the compared tick) in which a post-reset output was actually compared with the twin; comparisons before any reset are trivial and not counted.",
+            rule: "one evaluation = one scenario (history, reset(s), continuation) executed against the real crate. Seeded scenarios: random indicator/parameters/input mode, up to 4 cycles of fault-laden history + reset (storms included) + continuation drawn from a different stretch of the simulated market (or the same market going on, or the history itself fed again), compared tick by tick with a twin constructed at the reset. Sweep scenarios: every history over {-1,0,1,2,NaN,+inf,-inf,Reset} up to the stated depth for periods 1..=4, then reset, then 4 fixed continuations (ascending, descending with ties, NaN-first bars, the history's own alphabet again). distinct_nontrivial counts distinct situations (indicator, period bucket, window phase of the compared tick since reset, input mode, fault most recently seen before the reset, history length class, fault of the compared tick) in which a post-reset output was actually compared with the twin; comparisons before any reset are trivial and not counted.",
             assumptions: vec![
                 "oracle = the same real code freshly constructed; a defect shared by both sides (wrong formula) is invisible by construction".into(),
                 "comparison: bit-identical, else both NaN / equal infinities / |a-b| <= 1e-12*max(|a|,|b|,natural scale)".into(),
